@@ -60,15 +60,32 @@ func vEventsEqual(got, want []vEv) bool {
 	return true
 }
 
+// vConcSel restricts vC05Conc to the named entries (nil = all two-source entries); used for the
+// deeper (P >= 1) jobs, whose schedule space would otherwise exhaust the path budget.
+var vConcSel []string
+
 func vC05Conc(maxVals int) {
 	op := &vMCatalog[vChoice("entry", len(vMCatalog))]
 	if op.nsrc != 2 {
 		vAssume(false)
 	}
+	if vConcSel != nil {
+		found := false
+		for _, n := range vConcSel {
+			if n == op.name {
+				found = true
+			}
+		}
+		if !found {
+			vAssume(false)
+		}
+	}
 	probes := []*vProbe{{name: "src0"}, {name: "src1"}}
 	c := &vCtx{src: []Observable[int64]{probes[0], probes[1]}, L: 2 * maxVals}
 	pipe := op.mk(c)
 	rec := &vRecorder{yield: true}
+	vUseRaw = vChoice("raw", 2) == 1 // a hand-written observer does not mask late notifications
+	defer func() { vUseRaw = false }()
 	vGo(func() { pipe(context.Background(), rec) })
 	vQuiesce()
 	if probes[0].subs == 0 || probes[1].subs == 0 {
@@ -108,3 +125,25 @@ func vC05Conc(maxVals int) {
 
 func vhC05_conc_v1() { vC05Conc(1) }
 func vhC05_conc_v2() { vC05Conc(2) }
+
+// second-source-driven operators (notifier / boundary / tick): the place where a flag or a pending
+// value is handed from one source's goroutine to the other's
+func vhC05_concsel_v1() {
+	vConcSel = []string{"TakeUntil", "SkipUntil", "BufferWhen", "WindowWhen+MergeAll", "SampleWhen", "ThrottleWhen"}
+	vC05Conc(1)
+}
+func vhC05_concsel_v2() {
+	vConcSel = []string{"TakeUntil", "SkipUntil", "BufferWhen", "WindowWhen+MergeAll", "SampleWhen", "ThrottleWhen"}
+	vC05Conc(2)
+}
+
+func vhC05_concdbg_v1() {
+	vConcSel = []string{"SampleWhen"}
+	vC05Conc(1)
+}
+
+// the pairing / combining family needs two values per source to show queue and latest-value defects
+func vhC05_conczip_v2() {
+	vConcSel = []string{"ZipWith1", "Zip2", "Zip", "ZipAll(Just)", "CombineLatestWith1", "MergeWith1", "RaceWith"}
+	vC05Conc(2)
+}
